@@ -177,3 +177,100 @@ func (ex *Exec) setModel(raw map[string]string, vars []*Term) {
 	p.model = m
 	p.evalc = nil
 }
+
+// ---- simplification under equalities learned on the path (var == const) ----
+
+// simp substitutes variables whose value is fixed by the path condition and folds.
+func (ex *Exec) simp(t *Term) *Term {
+	p := ex.path
+	if p == nil || len(p.subst) == 0 || t.IsConst() {
+		return t
+	}
+	if p.simpMemo == nil || p.simpVer != len(p.subst) {
+		p.simpMemo = map[int]*Term{}
+		p.simpVer = len(p.subst)
+	}
+	return ex.simpRec(t, p)
+}
+
+func (ex *Exec) simpRec(t *Term, p *Path) *Term {
+	if t.IsConst() {
+		return t
+	}
+	if r, ok := p.simpMemo[t.id]; ok {
+		return r
+	}
+	var r *Term
+	switch t.Op {
+	case OVar:
+		if c, ok := p.subst[t.Name]; ok {
+			r = c
+		} else {
+			r = t
+		}
+	default:
+		changed := false
+		args := make([]*Term, len(t.Args))
+		for i, a := range t.Args {
+			args[i] = ex.simpRec(a, p)
+			if args[i] != a {
+				changed = true
+			}
+		}
+		if !changed {
+			r = t
+		} else if t.Op == OUF {
+			r = ex.ts.UF(t.Name, t.Sort, args...)
+		} else {
+			r = ex.rebuild(t, args)
+		}
+	}
+	p.simpMemo[t.id] = r
+	return r
+}
+
+// learnEq records var == const facts from a new path-condition conjunct.
+func (ex *Exec) learnEq(c *Term) {
+	p := ex.path
+	switch c.Op {
+	case OEq:
+		a, b := c.Args[0], c.Args[1]
+		if b.Op == OVar && a.IsConst() {
+			a, b = b, a
+		}
+		if a.Op == OVar && b.IsConst() {
+			if p.subst == nil {
+				p.subst = map[string]*Term{}
+			}
+			p.subst[a.Name] = b
+		}
+	case OBAnd:
+		ex.learnEq(c.Args[0])
+		ex.learnEq(c.Args[1])
+	case OVar:
+		if c.Sort.K == SBool {
+			if p.subst == nil {
+				p.subst = map[string]*Term{}
+			}
+			p.subst[c.Name] = ex.ts.tru
+		}
+	case OBNot:
+		if c.Args[0].Op == OVar {
+			if p.subst == nil {
+				p.subst = map[string]*Term{}
+			}
+			p.subst[c.Args[0].Name] = ex.ts.fls
+		}
+	}
+}
+
+// constInt: constant value of an integer term, using the path's learned equalities.
+func (ex *Exec) constInt(t *Term) (int64, bool) {
+	if v, ok := termConstInt(t); ok {
+		return v, true
+	}
+	if t == nil {
+		return 0, false
+	}
+	return termConstInt(ex.simp(t))
+}
